@@ -1,4 +1,4 @@
-CONSTANTS UpperClosed = TRUE FirstClosed = TRUE ContractFaithful = TRUE N = 3
+CONSTANTS UpperClosed = TRUE FirstClosed = TRUE ContractFaithful = TRUE N = 2
 INIT Init
 NEXT Next
 INVARIANT InvContract
